@@ -102,8 +102,14 @@ Definition new_record (par : option nsm) (ft : ftable) (b : bundle) (k : string)
   end.
 
 (* ProvBundle.add_record *)
+(* first(set) of a multi-valued formal attribute depends on Python's set order *)
+Definition formal_single (r : prec) : bool :=
+  forallb (fun l => match attr_get (prov_qn l) (rattrs r) with _ :: _ :: _ => false | _ => true end)
+          (formal_attrs (rkind r)).
+
 Definition add_record (par : option nsm) (ft : ftable) (b : bundle) (r : prec)
   : bundle * result prec :=
+  if negb (formal_single r) then (b, OutOfDomain) else
   new_record par ft b (rkind r) (option_map NQn (rid r)) (formal_attr_args r ++ extra_attr_args r)%list.
 
 (* add a list of records, stopping at the first failure (state so far is kept) *)
@@ -184,8 +190,8 @@ Definition factory_call (par : option nsm) (ft : ftable) (b : bundle) (f : strin
 Definition upd_rec (b : bundle) (i : nat) (m : nsm) (r : prec) : bundle :=
   mkB (bid b) m (set_nth i r (brecs b)) (bidmap b).
 
-(* ---- ProvBundle._unified_records (as repaired: grouped by type and identifier).
-   copy() and add_attributes run against the *source* bundle's manager. ---- *)
+(* ---- ProvBundle._unified_records (as repaired: grouped by type and identifier,
+   merged in a scratch bundle) ---- *)
 Definition same_group (a b : prec) : bool :=
   String.eqb (rkind a) (rkind b) &&
   match rid a, rid b with Some x, Some y => qn_eqb x y | _, _ => false end.
@@ -247,8 +253,14 @@ Fixpoint unify_walk (fuel : nat) (c : actx) (m : nsm) (all : list prec) (todo : 
     end
   end.
 
-Definition unified_records (c : actx) (b : bundle) : outcome (list prec) :=
-  unify_walk (S (length (brecs b))) c (bns b) (brecs b) (brecs b) [].
+(* merged records are validated in a scratch manager whose parent is the bundle's
+   own manager; the bundle itself is not touched *)
+Definition unified_records (ft : ftable) (b : bundle) : result (list prec) :=
+  match unify_walk (S (length (brecs b))) (mkCtx (Some (bns b)) ft) nsm_init (brecs b) (brecs b) [] with
+  | Done _ l => OK l
+  | Fail _ e => Raise e
+  | OOD => OutOfDomain
+  end.
 
 (* register a list of namespaces in a fresh manager (add_namespaces) *)
 Fixpoint add_namespaces (m : nsm) (l : list ns) : option nsm :=
